@@ -77,6 +77,8 @@ type Exec struct {
 	specFiles  []string
 	allowStdInline map[string]bool
 	boundPhis  map[*ssa.Phi]Val
+	ctxPCs     []Term // path conditions of the enclosing (inlining) call sites
+	globalPinned map[*ssa.Global]bool
 }
 
 type ExecOpts struct {
@@ -240,10 +242,22 @@ func (x *Exec) CallFunction(fn *ssa.Function, args []Val, st *State, prefix stri
 			fr.Env[p] = args[i]
 		}
 	}
-	if err := x.runFrame(fr, st); err != nil {
+	// run the callee with a path condition relative to the call
+	entryPC := st.PC
+	x.ctxPCs = append(x.ctxPCs, entryPC)
+	st.PC = TTrue
+	fr.Pre.PC = TTrue
+	err := x.runFrame(fr, st)
+	var res []Val
+	if err == nil {
+		res, err = x.finishFrame(fr, st)
+	}
+	x.ctxPCs = x.ctxPCs[:len(x.ctxPCs)-1]
+	if err != nil {
 		return nil, err
 	}
-	return x.finishFrame(fr, st)
+	st.PC = x.C.Name("pc", And(entryPC, st.PC))
+	return res, nil
 }
 
 func (x *Exec) runFrame(fr *Frame, st *State) error {
@@ -637,7 +651,7 @@ func (x *Exec) obligation(fr *Frame, ins ssa.Instruction, kind string, pc, prop 
 	if ord > 0 {
 		name = fmt.Sprintf("%s~%d", name, ord)
 	}
-	x.C.AddObligation(name, ObKind(kind), x.TopName, pc, prop, note+" @"+x.P.RelPos(pos))
+	x.C.AddObligation(name, ObKind(kind), x.TopName, x.absPC(pc), prop, note+" @"+x.P.RelPos(pos))
 }
 
 func (x *Exec) runDefers(fr *Frame, st *State) error {
@@ -652,7 +666,17 @@ func (x *Exec) runDefers(fr *Frame, st *State) error {
 }
 
 
+// absPC: path conditions inside an inlined call are kept relative to the call (so that the same callee with the
+// same arguments produces the same terms wherever it is called); the absolute condition adds the enclosing ones.
+func (x *Exec) absPC(pc Term) Term {
+	if len(x.ctxPCs) == 0 {
+		return pc
+	}
+	return And(append(append([]Term{}, x.ctxPCs...), pc)...)
+}
+
 func (x *Exec) feasible(pc Term) bool {
+	pc = x.absPC(pc)
 	if pc.IsFalse() {
 		return false
 	}
